@@ -288,4 +288,51 @@ def runM (fs : List Space) : St → List MOp → Except Err St
     | .error e => .error e
     | .ok st' => runM fs st' t
 
+/-! ## construction interleaved with selection
+
+A script creates catalogs and formulas at any point of a history of selections and controller
+moves: a catalog may be handed a controller that has already been moved.  A catalog has no state of
+its own (`Catalog.selected()` reads `controlled_by.current_index` at the time of the call), so the
+world is: the state of the controllers, the central controllers (spaces) of the formulas made so
+far, and the catalogs made so far (name, controller name, member names). -/
+
+structure World where
+  st : St
+  fs : List Space
+  cats : List (Name × Name × List Name)
+
+inductive WOp where
+  /-- an operation on the formulas / controllers that exist -/
+  | op (o : MOp)
+  /-- `Catalog(n, members, controlled_by=…)` now: handed the declared controller named `c`, or
+  making its own controller (a new `Controller` object starts at index 0) -/
+  | newCatalog (n c : Name) (names : List Name)
+  /-- a formula written now with catalogs made so far, and its central controller -/
+  | newFormula (e : Expr)
+
+def stepW (decl : List Controller) (w : World) : WOp → Except BErr World
+  | .op o =>
+    match stepM w.fs w.st o with
+    | .error e => .error (.base e)
+    | .ok st' => .ok { w with st := st' }
+  | .newCatalog n c names =>
+    match mkCatalog decl n c names with
+    | .error e => .error e
+    | .ok _ =>
+      .ok { w with cats := w.cats ++ [(n, c, names)],
+                   st := match findCtrl decl c with
+                     | some _ => w.st
+                     | none => w.st.set c 0 }
+  | .newFormula e =>
+    match central e with
+    | .error er => .error (.base er)
+    | .ok sp => .ok { w with fs := w.fs ++ [sp] }
+
+def runW (decl : List Controller) : World → List WOp → Except BErr World
+  | w, [] => .ok w
+  | w, o :: t =>
+    match stepW decl w o with
+    | .error e => .error e
+    | .ok w' => runW decl w' t
+
 end Cat
